@@ -290,7 +290,9 @@ CLAIMED["C12"]["text"] += (
     "FunctionKind.from_callable / has_self / the decorator line are tied by corr.C12.kind.")
 CLAIMED["C13"]["text"] += (
     " The whole-function composition (shrink_traced_types, rewriter, update_signature_args / _return) is Model/FuncDef.updatedDefinition, "
-    "compared with the real get_updated_definition on random trace lists (corr.C13.shrinkTraced, corr.C13.definition).")
+    "compared with the real get_updated_definition on random trace lists (corr.C13.shrinkTraced, corr.C13.definition); "
+    "definition_keeps_source_annotation / definition_omits_annotated / definition_return_annotated state the default and omit modes for "
+    "whole functions, whatever the traces and the rewriter.")
 CLAIMED["C14"]["text"] += (
     " For the traces of one function (Model/FuncDef.shrinkTraced = shrink_traced_types): traced_types_depend_on_the_set - two trace "
     "lists with the same members give, for every parameter name and for the return and yield positions, both nothing or == types "
